@@ -224,6 +224,11 @@ func (t *Tracer) OriginsFrom(v ssa.Value, stack []ssa.Instruction) []Origin {
 					}
 				}
 				if n == 0 {
+					if _, isPhi := a.(*ssa.Phi); isPhi && t.ThroughDeref {
+						// a pointer value merged from several paths: the pointee's origin is the pointer's
+						walk(a, stack, viaArg, depth+1)
+						return
+					}
 					emit(v, stack, viaArg, false)
 				}
 			case *ssa.FieldAddr:
